@@ -1035,7 +1035,7 @@ fn cmd_drive(args: &[String]) -> i32 {
     let (dw, db) = if tier == "thorough" { (40_000_000u64, 300_000u64) } else { (1_600_000, 20_000) };
     let worlds = arg(args, "--worlds").and_then(|s| s.parse().ok()).or_else(|| std::env::var("VERIF_WORLDS").ok().and_then(|s| s.parse().ok())).unwrap_or(dw);
     let budget_ms = arg_u64(args, "--budget-ms", db);
-    let ncpu = std::thread::available_parallelism().map(|n| n.get()).unwrap_or(1);
+    let ncpu = driver::online_cpus();
     let nworkers = arg(args, "--workers").and_then(|s| s.parse().ok()).unwrap_or(ncpu.min(16));
     let root = driver::out_root();
     let workdir = root.join("work").join(format!("C20-{}", tier));
